@@ -311,9 +311,11 @@ NextForm(s) ==
 CanEval(s) == s.ctl.mode = "eval"
 EvalBody(s, v, env, md, pushed) ==
   \* the code after the `eval:` label; `pushed` = the "ev" activation already exists
-  LET ch == Charge(s, env) IN
+  \* the location register names the form about to be evaluated BEFORE the limits are checked: a limit error raised at
+  \* the first step of a form (also of the first form of a Load) is located at that form, never at a form of an earlier Load
+  LET ch == Charge([s EXCEPT !.envs[env].loc = v.i], env) IN
   IF ~ch[2] THEN (IF pushed THEN [ch[1] EXCEPT !.k = Pop(@)] ELSE ch[1])
-  ELSE LET s1 == [ch[1] EXCEPT !.envs[env].loc = v.i] IN
+  ELSE LET s1 == ch[1] IN
        LET done(x) == IF pushed THEN [x EXCEPT !.k = Pop(@)] ELSE x IN
   IF v.q THEN done([s1 EXCEPT !.ctl = Ret(v)])
   ELSE CASE v.t = "sym" ->
